@@ -110,13 +110,15 @@ PIPELINES = {
     "csr": {
         "variants": ["ring", "awslc"],
         "mc": [{"module": "MC_Csr", "workers": 8}],
-        "drivers": [{"name": "cases", "cmd": ["csr-cases", "{cases}", "{out}"], "cases": "MC_Csr"}],
+        "drivers": [{"name": "cases", "cmd": ["csr-cases", "{cases}", "{out}"], "cases": "MC_Csr"},
+                    {"name": "random", "cmd": ["csr-random", "{out}", "{nrandom_small}"], "random": True}],
         "min_events": 500,
     },
     "crl": {
         "variants": ["ring"],
         "mc": [{"module": "MC_Crl", "workers": 8}],
-        "drivers": [{"name": "cases", "cmd": ["crl-cases", "{cases}", "{out}"], "cases": "MC_Crl"}],
+        "drivers": [{"name": "cases", "cmd": ["crl-cases", "{cases}", "{out}"], "cases": "MC_Crl"},
+                    {"name": "random", "cmd": ["crl-random", "{out}", "{nrandom_small}"], "random": True}],
         "min_events": 300,
     },
     "strings": {
